@@ -327,7 +327,14 @@ def vc_upsert(prog, ecls='BaseMatching', n_layers=1, obs_ne=0):
             old, old0, c0 = st['old'], st['old0'], st['cand0']
             better = z3.Or(z3.And(old0['stop'], z3.Not(c0['stop'])), z3.And(old0['stop'] == c0['stop'], old0['logprob'] < c0['logprob']))
             g.append(('upsert:present-returns-stored-entry', b2z(res is old)))
-            g.append(('upsert:present-no-refiling', b2z(isinstance(tgt, SymDict) and len(tgt.writes) == 0)))
+            # the stored object stays filed under its key: the only layer writes allowed are a re-filing of that same
+            # object under the same key (ordering of a former debug placeholder), never another object or key
+            wr = tgt.writes if isinstance(tgt, SymDict) else None
+            g.append(('upsert:present-entry-stays-filed-under-its-key', b2z(wr is not None and all(
+                (v is old or v is __import__('pyvc.interp', fromlist=['DELETED']).DELETED) and eq(k_, key) is not False for k_, v in wr)
+                and (not wr or wr[-1][1] is old))))
+            g.append(('upsert:present-refiling-only-for-a-stopped-entry-that-became-live',
+                      z3.Implies(b2z(bool(wr)), z3.And(old0['stop'], z3.Not(b2z(old.f['stop']))))))
             g.append(('upsert:present-keeps-better-score', old.f['logprob'] == z3.If(better, c0['logprob'], old0['logprob'])))
             g.append(('upsert:present-keeps-better-predecessor', b2z(len(old.f['prev'].elems) == 1) if isinstance(old.f['prev'], SetVal) else z3.BoolVal(False)))
         else:
